@@ -482,13 +482,31 @@ func TestEngine(t *testing.T) {
 		prev := r.IntN(2)
 		header := fmt.Sprintf("case %d D=%d wait=%d alerts=%s prev=%d", id, D, wait, strings.Join(as, "."), prev)
 		n := 1 + r.IntN(3)
+		// wide receivers: 5-8 integrations, of which at least four that hang or fail recoverably until the flush
+		// deadline come before a healthy one in configuration order (the others are random)
+		healthy, spare := -1, 0
+		if r.IntN(8) == 0 {
+			n = 5 + r.IntN(4)
+			healthy = 4 + r.IntN(n-4)
+			spare = healthy - 4
+		}
 		var decls []integDecl
 		for i := range n {
 			sr := "1"
 			if r.IntN(3) == 0 {
 				sr = "0"
 			}
-			decls = append(decls, parseDecl(fmt.Sprintf("integ %d %s %s", i, sr, genScript(r, D))))
+			script := genScript(r, D)
+			switch {
+			case i == healthy:
+				sr, script = "1", fmt.Sprintf("ok:%d", hx.Pick(r, []int64{1, int64(time.Millisecond), 20 * int64(time.Millisecond)}))
+			case i < healthy && spare > 0 && r.IntN(3) == 0:
+				spare--
+			case i < healthy:
+				sr = "1"
+				script = hx.Pick(r, []string{"hang:1", "-", fmt.Sprintf("rec:%d,hang:1", D/3), fmt.Sprintf("rec:%d,rec:%d", 300*int64(time.Millisecond), 2*int64(time.Second))})
+			}
+			decls = append(decls, parseDecl(fmt.Sprintf("integ %d %s %s", i, sr, script)))
 		}
 		runCase(t, tr, header, decls)
 	}
